@@ -118,6 +118,14 @@ def run(repo, rep):
     rule_wrapper_strides(repo, rep, mod)
     rep.clause("C07-r", "encode_section merges the weight and the zero-run slice boundaries with two independent cursors: each is advanced under its own test, neither in the else-branch of the other (a boundary shared by both lists advances both)")
     rule_slice_cursors(repo, rep, enc)
+    rep.clause("C07-s", "create_palette (executed on the clang AST for four histograms, with and without zero runs): every occurring weight is representable - PALBITS covers the largest code without a palette, palette entries fit PALBITS, direct indices stay within 511")
+    rule_create_palette_executed(repo, rep, enc)
+    rep.clause("C07-t", "reorder: IFM block depth 32 for 8-bit depth-first, 16 for 16-bit IFMs and for part-kernel-first (initialiser evaluated for the four combinations)")
+    rule_reorder_block_depth(repo, rep, enc)
+    rep.clause("C07-u", "an encoding is a function of the volume handed in: the weight compressor keeps no process-wide memo besides the reviewed compression cache [rule shared with C14-a]")
+    from . import c14 as _c14
+
+    rep.run_borrowed(_c14, {"C14-a": "C07-u"}, repo, only_sites=("weight_compressor",))
     rep.clause("C07-l", "reorder: a source weight is fetched exactly for lanes inside the volume; every other lane is zero padding (guard evaluated on probe lanes)")
     rule_lane_guard(repo, rep, enc)
     rep.clause("C07-m", "typed allocations: sizeof's element type is the pointee type of the table it sizes")
@@ -914,3 +922,75 @@ def rule_error_code_forwarded(repo, rep, enc, mod):
     rep.check(bool(wrapper), "C07-q", f"{MOD}:method_reorder_encode", "the wrapper tests the returned length for a negative value", "no `output_length < 0` test in the wrapper")
     if n < 1:
         raise AnalysisError("mlw_reorder_encode: no return statement carries the encoder's result")
+
+
+def rule_create_palette_executed(repo, rep, enc):
+    """(s) create_palette is executed on the clang AST (c_exec: loops, qsort through the unit's comparator, compound assignments) for four
+    weight histograms. Afterwards every weight that occurs can be written: without a palette (palsize 0) its sign-magnitude code
+    2|w| + (w < 0) fits PALBITS bits - the uncompressed mode writes PALBITS bits per weight; with a palette every entry fits PALBITS bits
+    and every weight outside the palette has a direct index palsize + code - direct_offset of at most 511."""
+    from ..cast import CEvalError, c_exec
+
+    site = f"{ENC}:create_palette"
+    body = enc.body("create_palette")
+
+    def hist(pairs):
+        f = [0] * 512
+        for w, c in pairs:
+            f[w + 256] = c
+        return f
+
+    cases = {
+        "flat -63..63 and one 200": hist([(w, 10) for w in range(-63, 64)] + [(200, 1)]),
+        "int8 flat with -128": hist([(w, 5) for w in range(-128, 128)]),
+        "peaked around 3 with rare 255": hist([(3, 1000), (2, 500), (4, 400), (-1, 300), (255, 2), (-255, 1), (40, 3)]),
+        "only five values": hist([(0, 50), (1, 40), (-1, 30), (7, 20), (-9, 10)]),
+    }
+    n = 0
+    for name, freq in cases.items():
+        for zr in (0, 1):
+            env = {"freq": list(freq), "use_zero_runs": zr, "lut": [0] * 32, "palsize": -1, "palbits": -1, "direct_offset": -1, "only_zeros": -1, "only_palette": -1}
+            try:
+                c_exec(body, env, enc)
+            except CEvalError as ex:
+                raise AnalysisError(f"create_palette not executable: {ex}")
+            n += 1
+            palsize, palbits, doff, lut = env["palsize"], env["palbits"], env["direct_offset"], env["lut"]
+            codes = [((abs(w) << 1) | (w < 0)) for w in range(-255, 256) if freq[w + 256] > 0 and not (w == 0 and zr)]
+            bad = None
+            if not 2 <= palbits <= 9:
+                bad = f"PALBITS {palbits} outside 2..9"
+            elif palsize == 0:
+                over = [c for c in codes if c >= (1 << palbits)]
+                if over:
+                    bad = f"no palette, PALBITS {palbits}: the code {max(over)} of weight {-(max(over) >> 1) if max(over) & 1 else max(over) >> 1} needs more bits - uncompressed mode truncates it"
+            else:
+                if any(lut[i] >= (1 << palbits) for i in range(palsize)):
+                    bad = f"palette entry {max(lut[:palsize])} does not fit PALBITS {palbits}"
+                direct = [palsize + c - doff for c in codes if c not in lut[:palsize]]
+                if direct and (max(direct) > 511 or min(direct) < palsize):
+                    bad = f"direct index range {min(direct)}..{max(direct)} outside {palsize}..511"
+            rep.check(bad is None, "C07-s", site, f"histogram '{name}', zero runs {zr}: every occurring weight is representable (palsize {palsize}, PALBITS {palbits})", bad or "")
+    if n < 8:
+        raise AnalysisError("create_palette: cases not executed")
+
+
+def rule_reorder_block_depth(repo, rep, enc):
+    """(t) reorder lays depth-first weights out in IFM blocks of 32 channels for 8-bit IFMs and 16 for 16-bit IFMs, part-kernel-first always
+    in 16 (the initialiser of ifm_block_depth is evaluated for the four combinations; the Python side computes its depth utilisation with
+    the same pair of constants)."""
+    from ..cast import c_eval, CEvalError
+
+    site = f"{ENC}:reorder"
+    body = enc.body("reorder")
+    decl = [d for d in enc.walk(body) if d.get("kind") == "VarDecl" and d.get("name") == "ifm_block_depth"]
+    if len(decl) != 1:
+        raise AnalysisError("reorder: ifm_block_depth not found")
+    init = [x for x in decl[0].get("inner", []) if x.get("kind") not in ("FullComment",)]
+    want = {(0, 8): 32, (0, 16): 16, (1, 8): 16, (1, 16): 16}
+    for (pk, bits), w in want.items():
+        try:
+            got = c_eval(init[0], {"is_partkernel": pk, "ifm_bitdepth": bits}, enc)
+        except CEvalError as ex:
+            raise AnalysisError(f"reorder: ifm_block_depth initialiser not evaluable: {ex}")
+        rep.check(got == w, "C07-t", site, f"ifm_block_depth(part kernel {pk}, {bits}-bit IFM) = {w}", f"evaluates to {got}: the depth-first stream of a 16-bit IFM is laid out in blocks of {got} channels, the hardware reads blocks of 16")
